@@ -7,7 +7,7 @@ ADDED = {
     'C02': 'Rounds 3-4: sub-check facet_forms (v^T M u and b^T v of facet forms for nodal interpolants of polynomials = exact rational '
            'facet integrals, also on meshes mixing affine and general cells); unions of overlapping named subdomains; subset bases '
            'derived with with_element; sharp integration orders on the (affine) prisms; rigid motions scaled with the mesh.',
-    'C03': 'Rounds 3-4: committed coverage replays for hierarchical quadrilateral elements of degree 5 and 6 on shifted cells.',
+    'C03': 'Rounds 3-4: committed coverage replays for hierarchical quadrilateral elements of degree 5 and 6 on shifted cells. Round 5b: connectivity of unsigned dtype in the shared mesh builder; a globally defined element instance that has served on a sibling mesh sharing the coordinate array; degree-aware conditioning yardstick for ElementGlobal.',
     'C04': 'Rounds 3-4: the location table is single-valued for EVERY element (not only nodal ones); sub-check special: periodic tensor '
            'meshes glued in one, two or three directions and CompositeBasis of two to four bases (numbers 0..N-1 all used, N as counted, '
            'blocks one after the other, no empty matrix row); bases built on meshes that have served before (discarded operations) or '
@@ -19,7 +19,7 @@ ADDED = {
            'refined(k) (the selection it must stand for is found with a geometric parent map).',
     'C08': 'Rounds 3-4: sub-check high_orders: orders 64..300 (400) on the segment and 64, 200 on the quadrilateral judged with shifted '
            'Legendre polynomials (orthogonality relations of total degree n), which monomials cannot resolve.',
-    'C09': 'Rounds 3-4: integer-typed reference points; one element instance evaluated at two point arrays that share coordinates.',
+    'C09': 'Rounds 3-4: integer-typed reference points; one element instance evaluated at two point arrays that share coordinates. Round 5b: the same point array changed in place between two evaluations; composites of one shared element instance (e * e) as partitions of unity per component.',
     'C10': 'Rounds 3-4: permutation subsets after a whole-mesh evaluation on the same mapping object; normals of prisms from the reference '
            'table; normals of a basis derived with with_element from a basis on an oriented facet set.',
     'C11': 'Rounds 3-4: sub-check large: Delaunay tetrahedral meshes of 300-1000 points through the brute-force oracle, meshes beyond 2^16 '
@@ -36,7 +36,7 @@ ADDED = {
     'C15': 'Rounds 3-4: rules for relatives of tagged meshes tagged differently, operations repeated on one operand, an element used on two '
            'meshes sharing the point array, varying subsets with one point array object, default-constructor meshes, morphed; deterministic '
            'solvers compared bit for bit.',
-    'C16': 'Rounds 3-4: one threaded form object reused with exchanged trial/test spaces; complex and single-precision forms under threads.',
+    'C16': 'Rounds 3-4: one threaded form object reused with exchanged trial/test spaces; complex and single-precision forms under threads. Round 5b: test basis on a scaled copy of the mesh (other dx); an earlier elemental result compared again after the next threaded call.',
     'C17': 'Rounds 3-4: boundaries listing an interior facet from both sides (orientation compared as multiset per facet); the '
            'encode_point_data keyword; the same path written twice; meshes ending with points no cell uses; tags naming an entity twice; '
            'a second export with the loaded user data handed back after redefining a named set, and after editing the tags in place.',
@@ -45,5 +45,5 @@ ADDED = {
     'C19': 'Rounds 3-4: Form.block; the bases handed out by split() (also for subset and one-sided bases) interpolate like component bases '
            'with the quadrature of the whole; asm over lists with a raw coefficient vector.',
     'C20': 'Rounds 3-4: families complex (dtype=complex128) and basis_product; a NonlinearForm object reused on a second basis; det/inv '
-           'for entries 2^-27..2^10.',
+           'for entries 2^-27..2^10. Round 5b: helper inputs that single precision cannot represent; local Jacobians of the elemental route against BilinearForm of the linearisation.',
 }
